@@ -148,6 +148,17 @@ Theorem supply_eq_tokens_eq_balances :
 Proof. exact r_supply. Qed.
 Print Assumptions supply_eq_tokens_eq_balances.
 
+(** The owner is never locked out: in every reachable state the recorded owner of a token can
+    burn it and can transfer it (without changes) to any address — also in restricted classes
+    and after the class changed hands. *)
+Theorem owner_never_locked_out :
+  forall (s : state) (c : cid) (t : tid) (o : addr),
+    Reachable s -> get_owner s c t = Some o -> denom_ok c = true -> token_ok t = true ->
+    (exists s', exec_msg s (Burn o c t) = Some s')
+    /\ (forall r, 0 <= r -> exists s', exec_msg s (Transfer o c t dnm dnm dnm dnm r) = Some s').
+Proof. exact owner_can_act. Qed.
+Print Assumptions owner_never_locked_out.
+
 (** A rejected message changes nothing. *)
 Theorem rejected_step_changes_nothing :
   forall (s : state) (st : step), ok s st = false -> next s st = s.
